@@ -35,7 +35,7 @@ class DocIdSet(object):
     """
 
     def __eq__(self, other):
-        for a, b in izip(self, other):
+        for a, b in izip_longest(self, other, fillvalue=None):
             if a != b:
                 return False
         return True
